@@ -48,15 +48,16 @@ LEVEL_TEXT = ("C20_weights_match_balance, C20_weight_def, C20_group_sum, C20_top
               "pinned one), C20_no_flow_ratio: Coq theorems over Q for every journal and configuration, closed under the global context.  "
               "Mapping (-m): C20_mapped_entries (the query with -m books the entries of the query without -m on the paths map_path "
               "gives), C20_mapping_law (weight of the node at p of the mapped report = sum of the unmapped entries sent to p or below), "
-              "C20_mapping_law_local (= entries folded into p itself + children), C20_mapping_law_table_partial (the executable "
-              "statement Spec/PortfolioSpec.mapping_law_b, which this check evaluates on the binary's two text tables, holds with "
-              "tolerance 0 of the model's two tables, for every universe, mapping, sort order and journal with defined weights, "
+              "C20_mapping_law_local (= entries folded into p itself + children), C20_mapping_law_table (the executable statement "
+              "Spec/PortfolioSpec.mapping_law_b, which this check evaluates on the binary's two text tables, holds with tolerance 0 "
+              "of the model's two tables, for every universe, mapping, sort order and journal -- zero totals included -- with "
               "prefix-free unmapped paths and no commodity hidden by a level-0 rule); Example C20_w3_partial_fold (`-m 1,^Equity:US`: "
               "the row Equity is leaf and group at once).")
 LEVEL_NOTE = ("partial: float rounding is outside the theorems (rationals in the model); the model-to-code tie is sampled within "
-              "tolerances. C20_mapping_law_table is proved for runs without a zero total (defined_entries); for columns with an "
-              "undefined weight, which mapping_law_b skips, it is not proved. mapping_law_b presupposes prefix-free paths in the "
-              "table without -m (C20_w4_needs_prefix_free). Trusted: kernel, extraction, harness, the parsers named in the trusted base.")
+              "tolerances. C20_mapping_law / _local (sum over a whole subtree) assume defined weights (no zero total), as "
+              "C20_group_sum does; C20_mapping_law_table does not. mapping_law_b presupposes prefix-free paths in the table without "
+              "-m (C20_w4_needs_prefix_free: false of correct tables otherwise). Trusted: kernel, extraction, harness, the parsers "
+              "named in the trusted base.")
 
 TOL_W = 1e-6 + 1e-9
 TOL_R = 0.1 + 1e-9
